@@ -266,6 +266,27 @@ PROPS = {
              "non-trivial; distinct = distinct hash of the operation sequence",
         assumptions=["1 microsecond tolerance for integer truncation order in the smoothing formulas"],
     ),
+    "C17": dict(
+        level="exploration",
+        level_text="Trace rules on the wire over generated bounded scripts against the scripted peer in both handshake roles: a "
+                   "prefix reaches Established / FinWait1 / FinWait2 / LastAck / simultaneous close / data-in-flight, then 2..10 "
+                   "generated steps follow out of peer packets (in-order / ahead / duplicate data, ACK of everything or of data "
+                   "only, FIN in or out of sequence, RESET, second SYN, STATE-as-FIN), application actions (write, shutdown, drop "
+                   "reader / writer, read) and clock advances (1 ms..3 s); plus the silent-initiator sub-family for the SYN-ACK "
+                   "rule. Rules: SYN-ACK content, repeat count, 200 ms interval and failure; own-initiative FIN sequence number, "
+                   "all accepted bytes transmitted first, retransmission while unacknowledged, no payload after it; peer FIN only "
+                   "in sequence, acknowledged by every later packet and answered; RESET ends the connection at once, silently, with "
+                   "an error unless the close handshake was answered. Coverage evidence: (state, packet type) and (state, "
+                   "application action) pairs read from hooked snapshots.",
+        level_note=SIM_NOTE + "; what the endpoint does with data a peer sends after its own FIN is not judged",
+        technique="runtime monitoring: scripted-peer state-machine walks + wire-trace conformance rules",
+        budget=dict(quick=200, thorough=2400),
+        require=["c17_synacks_checked", "c17_silent_initiator_cases", "c17_own_fins_checked", "c17_fin_retransmissions_checked",
+                 "c17_peer_fins_in_sequence", "c17_peer_fins_out_of_sequence", "c17_fin_answers_checked", "c17_resets_on_live_connection"],
+        rule="a case is one generated (role, options, prefix, script) tuple; non-trivial = more than 3 datagrams exchanged; distinct = "
+             "distinct normalised wire trace; coverage_labels lists the (state, stimulus) pairs observed",
+        assumptions=["FIN retransmission is judged against an upper bound of the timeout in force (max(300 ms, 5 x largest RTT sample))"],
+    ),
     "C18": dict(
         level="exploration",
         level_text="Trace and state oracles over generated write-size / ACK-timing scripts against the scripted peer, both Nagle "
